@@ -109,3 +109,33 @@ Theorem C02_top_spelling : forall sc src pre post p k n b col,
   split_queries sc [] (mkTab src (pre ++ OSort p k [col] :: OTake p k n :: post)).
 Proof. exact top_spelling. Qed.
 Print Assumptions C02_top_spelling.
+
+(** ** sort-term defaults and summarize's column order (Proofs/SortFacts.v) *)
+From PQL Require Import Spec.FlattenStmt Proofs.SortFacts.
+
+(** in the grammar the parser is proved sound and complete for ([toks_sort_term]): no `asc`/`desc`
+    means descending; no `nulls first`/`nulls last` means nulls first exactly when ascending - i.e.
+    the default is descending with nulls last, ascending puts nulls first unless stated *)
+Theorem C02_sort_term_defaults : forall t ts, toks_sort_term t ts ->
+  (st_ascspan t = None -> st_asc t = false) /\ (st_nullsspan t = None -> st_nullsfirst t = st_asc t).
+Proof. exact sort_term_defaults. Qed.
+Print Assumptions C02_sort_term_defaults.
+
+(** each flag is printed as such *)
+Theorem C02_sort_term_rendering : forall c t px, wexpr c (st_x t) = Ok px ->
+  write_sort c [t] = Ok (lit " ORDER BY " ++ px ++ (if st_asc t then lit " ASC" else lit " DESC")
+                          ++ (if st_nullsfirst t then lit " NULLS FIRST" else lit " NULLS LAST")).
+Proof. exact sort_term_rendering. Qed.
+Print Assumptions C02_sort_term_rendering.
+
+(** summarize lists its group keys before its aggregates *)
+Theorem C02_summarize_keys_first : forall source c n src p k cols b gs g cs gb,
+  write_ext_cols source c gs = Ok g -> write_ext_cols source c cols = Ok cs ->
+  (match gs with
+   | [] => Ok []
+   | _ => do ks <- sequence (map (fun col => wexpr c (ec_x col)) gs); Ok (lit " GROUP BY " ++ join_pieces (lit ", ") ks)
+   end) = Ok gb ->
+  write_subq source c (mkSubq n src (Some (OSummarize p k cols b gs)) None None) =
+  Ok ((lit "SELECT " ++ join_pieces (lit ", ") (g ++ cs) ++ lit " FROM " ++ render_source src ++ gb) ++ [] ++ []).
+Proof. exact summarize_keys_first. Qed.
+Print Assumptions C02_summarize_keys_first.
